@@ -111,6 +111,50 @@ def mark (s : State) (o : Obj) (healthy : Bool) : State × Bool :=
       hBackup := if member ∧ o.main = false then upd s.hBackup o.addr (if healthy then some o.id else none) else s.hBackup },
    decide member)
 
+/-! ### the two halves of a mark, and the concurrent system -/
+
+/-- `MarkHostHealthy` / `MarkHostUnhealthy`, first half: the flag CAS (outside the lock) -/
+def markCas (s : State) (o : Obj) (p : Bool) : State := { s with flag := upd s.flag o.id p }
+
+/-- second half, under the lock: membership test by identity and the map update -/
+def markApply (s : State) (o : Obj) (p : Bool) : State × Bool :=
+  let member := s.all o.addr = some o.id
+  ({ s with
+      hMain := if member ∧ o.main = true then upd s.hMain o.addr (if p then some o.id else none) else s.hMain
+      hBackup := if member ∧ o.main = false then upd s.hBackup o.addr (if p then some o.id else none) else s.hBackup },
+   decide member)
+
+structure CS where
+  st : State
+  pend : Nat → Bool := fun _ => false     -- objects with a mark between its flag CAS and its locked half
+
+inductive COp
+  | add (os : List Obj)
+  | remove (os : List Obj)
+  | replaceAll (os : List Obj)
+  | cas (o : Obj) (p : Bool)     -- first half of MarkHostHealthy (p) / MarkHostUnhealthy (¬p): the CAS succeeded
+  | apply (o : Obj)              -- its second half, under the lock
+
+def COp.objs : COp → List Obj
+  | .add os => os
+  | .remove os => os
+  | .replaceAll os => os
+  | .cas o _ => [o]
+  | .apply o => [o]
+
+def cstep (c : CS) : COp → Option CS
+  | .add os => some { c with st := add c.st os }
+  | .remove os => some { c with st := remove c.st os }
+  | .replaceAll os => some { c with st := replaceAll c.st os }
+  | .cas o p =>
+    if c.st.flag o.id ≠ p ∧ c.pend o.id = false then some { st := markCas c.st o p, pend := upd c.pend o.id true } else none
+  | .apply o =>
+    if c.pend o.id = true then some { st := (markApply c.st o (c.st.flag o.id)).1, pend := upd c.pend o.id false } else none
+
+def crun (c : CS) : List COp → Option CS
+  | [] => some c
+  | op :: ops => match cstep c op with | some c' => crun c' ops | none => none
+
 /-- insertion into a list sorted by address -/
 def insertByAddr (p : Nat × Nat) : List (Nat × Nat) → List (Nat × Nat)
   | [] => [p]
